@@ -19,7 +19,7 @@ fn main() {
     let sif2 = Spec { n_min: 2, n_max: 3, e_min: 1, e_max: 1, ks: 2, kt: 2, lw: 1, lx: 1, a: 3, b: 3, q: 0 };
     let uif2 = sif2.universe();
     let capif = if quick { 400_000 } else { u64::MAX };
-    ctx.run_slice(Slice::new(format!("long-interfaces-one-edge[{} first {}]", sif2.name(), capif.min(uif2.count())), uif2.count().min(capif), |i, loc| check::<B>(&uif2.get_open(i), loc)));
+    ctx.run_slice(Slice::new(format!("long-interfaces-one-edge[{} first {} of {}]", sif2.name(), capif.min(uif2.count()), uif2.count()), uif2.count().min(capif), |i, loc| check::<B>(&uif2.get_open(i), loc)));
     let kmax = if quick { 6 } else { 8 };
     let mut st = ohmc::props::structured::shapes(kmax);
     st.extend(ohmc::props::structured::programs(kmax));
